@@ -44,7 +44,17 @@ def build_world(modules):
 TASK_DEADLINE_S = int(os.environ.get("PYVC_TASK_DEADLINE_S", "900"))
 
 
+RELAXED = False
+
+
 def _child(fid, conn):
+    if RELAXED:
+        # second chance for obligations left `unknown` under load: the same queries with three times the solver budgets
+        from pyvc import verify as _v, core as _c
+        _v.Z3_TIMEOUT_MS *= 3
+        _v.CVC5_TIMEOUT_S *= 2
+        _v.SLOW_BUDGET_S *= 3
+        _c.FULL_FEAS_MS *= 2
     try:
         import faulthandler
         import signal
@@ -353,6 +363,18 @@ def check_property(pid: str, spec: dict, tier: str, seed: int) -> int:
     prev = {r_["function"]: r_.get("time_s", 0) for r_ in (load_json(os.path.join(EVID, f"{pid}.json"), {}).get("coverage", {}).get("functions_under_contract", []))}
     fids.sort(key=lambda f: -prev.get(f, 1e9 if "_ir" in f else 0))
     results = run_pool(fids, nproc)
+    # `unknown` is never a verdict; under load a query that normally takes milliseconds can run out of its budget. Functions with
+    # an open obligation (or no verdict at all) get one more run, alone on the machine, with larger budgets, before anything is reported.
+    again = [r_["fid"] for r_ in results if (not r_.get("crash")) and (any(o_["status"] == "unknown" for o_ in r_["obls"]) or (r_.get("error") and "no verdict within" in str(r_["error"])))]
+    if again:
+        global RELAXED
+        RELAXED = True
+        try:
+            second = {r_["fid"]: r_ for r_ in run_pool(again, min(3, len(again)))}
+        finally:
+            RELAXED = False
+        results = [second.get(r_["fid"], r_) if r_["fid"] in second and not second[r_["fid"]].get("crash") else r_ for r_ in results]
+        sys.stderr.write(f"[second chance] re-ran {len(again)} function(s) with larger solver budgets: {again}\n")
 
     ledger = load_json(os.path.join(VERIF, "contracts", "LEDGER.json"), {}).get(pid, {})
     known = [k for k in load_json(os.path.join(VERIF, "known_findings.json"), {"findings": []})["findings"] if k.get("property") == pid and k.get("status", "open") == "open"]
